@@ -1275,11 +1275,54 @@ fn op_non_null_input_link_with_default(doc: &Document, _: &Ctx, out: &mut Vec<Do
         if !inputs.contains(&named) {
             continue;
         }
+        // a type-correct default (an invalid default on a non-null position is outside the alphabet)
+        let Some(default) = minimal_input_value(doc, &named, 0) else { continue };
         push_with(doc, out, |c| {
             let iv = iv_mut(c, s);
             iv.ty = Ty::Named(named.clone()).non_null();
-            iv.default = Some(Value::obj(&[]));
+            iv.default = Some(default.clone());
         });
+    }
+}
+
+/// The smallest literal of input object type `name`: every required field (non-null, no default)
+/// gets a literal of its type; `None` if that needs more than three levels.
+fn minimal_input_value(doc: &Document, name: &str, depth: usize) -> Option<Value> {
+    if depth > 3 {
+        return None;
+    }
+    let mut fields: Vec<(String, Value)> = Vec::new();
+    for t in doc.types().filter(|t| t.kind == TypeKind::Input && t.name == name) {
+        for f in &t.input_fields {
+            if !f.ty.is_non_null() || f.default.is_some() {
+                continue;
+            }
+            fields.push((f.name.clone(), minimal_value_of(doc, &f.ty, depth)?));
+        }
+    }
+    let refs: Vec<(&str, Value)> = fields.iter().map(|(n, v)| (n.as_str(), v.clone())).collect();
+    Some(Value::obj(&refs))
+}
+
+fn minimal_value_of(doc: &Document, ty: &Ty, depth: usize) -> Option<Value> {
+    match ty {
+        Ty::NonNull(inner) => minimal_value_of(doc, inner, depth),
+        Ty::List(_) => Some(Value::List(vec![])),
+        Ty::Named(n) => match n.as_str() {
+            "Int" => Some(Value::int(1)),
+            "Float" => Some(Value::int(1)),
+            "String" | "ID" => Some(Value::str("s")),
+            "Boolean" => Some(Value::Bool(true)),
+            other => {
+                let t = doc.types().find(|t| t.name == other && !t.extend)?;
+                match t.kind {
+                    TypeKind::Enum => t.values.first().map(|v| Value::en(&v.name)),
+                    TypeKind::Input => minimal_input_value(doc, other, depth + 1),
+                    TypeKind::Scalar => Some(Value::int(1)),
+                    _ => None,
+                }
+            }
+        },
     }
 }
 
